@@ -112,6 +112,19 @@ class Evaluator(object):
     def e_Set(self, n):
         return [self.ev(e) for e in n.elts]
 
+    def e_Dict(self, n):
+        if any(k is None for k in n.keys):
+            raise Unknown("dict unpacking")
+        out = {}
+        for k, v in zip(n.keys, n.values):
+            key = self.ev(k)
+            try:
+                hash(key)
+            except TypeError:
+                raise Unknown("unhashable dict key %r" % (key,))
+            out[key] = self.ev(v)
+        return out
+
     def e_Subscript(self, n):
         """x[i] / x[i:j] of a concrete sequence, string or dict value with a concrete index (e.g. the first coefficient of a call's result tuple)"""
         base = self.ev(n.value)
@@ -120,7 +133,7 @@ class Evaluator(object):
             concrete = all(p is None or (isinstance(p, int) and not isinstance(p, bool)) for p in (key.start, key.stop, key.step))
         else:
             key = self.ev(n.slice)
-            concrete = isinstance(key, (int, str)) and not isinstance(key, bool)
+            concrete = (isinstance(key, (int, str)) and not isinstance(key, bool)) or (isinstance(base, dict) and isinstance(key, Obj))     # a table keyed by enum members
         if not concrete or not isinstance(base, (list, tuple, str, dict)) or (isinstance(base, dict) and isinstance(key, slice)):
             raise Unknown("subscript of a value that is not a concrete container, or by a non-concrete index: %s" % unparse(n))
         try:
